@@ -1,5 +1,6 @@
 import VermouthModel.C06
 import VermouthModel.C06_Ismags
+import VermouthModel.C06_Cosets
 import Std.Data.HashMap
 open Proto Iso C06
 
@@ -84,6 +85,11 @@ def answerTCons (cosets : List (Int × List Int)) : String :=
   encList (((C06I.makeConstraints cosets).mergeSort fun a b => a.1 < b.1 || (a.1 == b.1 && a.2 ≤ b.2)).map
     fun p => encList [encInt p.1, encInt p.2])
 
+/-- the cosets dict `analyze_symmetry` returned, against the stabiliser-chain specification `cosetsExactB`
+(plus: it is a dict of sets, the product of the coset sizes, and `|Aut|` as the verified reference counts it) -/
+def answerTCosets (sg : Graph) (cosets : List (Int × List Int)) : String :=
+  s!"exact={encBool (C06I.cosetsExactB sg cosets)} dict={encBool (C06I.cosetsDictB cosets)} prod={C06I.cosetProduct cosets} aut={(auts sg).length}"
+
 def handle (_ : Unit) (toks : List Tok) : Unit × String :=
   let r : Option String :=
     match toks with
@@ -120,6 +126,8 @@ def handle (_ : Unit) (toks : List Tok) : Unit × String :=
                        else C06I.isIsomorphicWith (fun _ => C06I.pickMin) (en != 0) g sg C))
     | [Tok.str "tvalid", sn, se, c] => do
         pure (encBool (C06I.constraintsValidB (← graphOf sn se) (← pairsOf c)))
+    | [Tok.str "tcosets", sn, se, cs] => do
+        pure (answerTCosets (← graphOf sn se) (← (← cs.list?).mapM cosetOf))
     | [Tok.str "tcons", cs] => do
         pure (answerTCons (← (← cs.list?).mapM cosetOf))
     | _ => none
